@@ -143,7 +143,7 @@ Definition step (root : node) (o : op) : node * obs :=
         | Some r1 =>
             match lookp r1 p with
             | L_node (ND a k) =>
-                let a' := ("content-type", "application/x-directory") :: ("etag", emptyMD5) :: (meta_attrs meta ++ adel (adel (filter (fun kv => negb (existsb (String.eqb (fst kv)) (map fst (meta_attrs meta)))) a) "etag") "content-type") in
+                let a' := ("content-type", "application/x-directory") :: ("etag", emptyMD5) :: (meta_attrs meta ++ adel (adel (filter (fun kv => negb (is_meta (fst kv))) a) "etag") "content-type") in
                 (setp r1 p (ND a' k), O_ok)
             | _ => (root, O_err ObjectParentIsFile)
             end
